@@ -96,3 +96,63 @@ Proof.
   - exists s'. split; [|split; assumption]. unfold ret. rewrite (flatfile_split_join ks Hks Hne). reflexivity.
   - rewrite (bind_ok _ _ _ _ _ E). reflexivity.
 Qed.
+
+(* the DBLINK sub-parser as a whole: field name, padding, first pair, loop *)
+From GTS Require Import DblinkRT.
+
+Theorem p_dblink_roundtrip depth a kv ps post o e ap fr k :
+  zlen n_DBLINK <= depth -> f_dblink (a_fields a) = [] ->
+  Forall pair_ok (kv :: ps) -> NoDup (map fst (kv :: ps)) ->
+  is_prefix (repeat_byte 32 depth) post = false ->
+  exists s', p_dblink depth a
+               (mkst (n_DBLINK ++ repeat_byte 32 (depth - zlen n_DBLINK) ++ dblink_text depth (kv :: ps) ++ post) o e ap (fr :: k)) =
+             (Ok (upd_fields a (set_dblink (a_fields a) (kv :: ps)), None), s') /\ rest s' = post /\ stk s' = fr :: k.
+Proof.
+  intros Hd Hempty Hok Hnd Hp. inversion Hok as [|? ? Hkv Hps]; subst. unfold p_dblink.
+  destruct (field_name_reads n_DBLINK depth (dblink_text depth (kv :: ps) ++ post) o e ap fr k Hd) as (o1 & e1 & H1).
+  rewrite (bind_ok _ _ _ (Some (n_DBLINK, 0), EOther) _ (try_ok _ _ _ _ H1)).
+  rewrite Hempty.
+  replace (dblink_text depth (kv :: ps) ++ post) with (pair_line kv ++ 10 :: more_text depth ps ++ post)
+    by (unfold dblink_text; rewrite <- !app_assoc; reflexivity).
+  destruct (dblink_pair_ok [] kv (more_text depth ps ++ post) o1 e1 (ap + depth) (fr :: k) Hkv) as (o2 & e2 & H2).
+  rewrite (bind_ok _ _ _ (Some (dict_set [] (fst kv) (snd kv)), EOther) _ (try_ok _ _ _ _ H2)).
+  unfold bind at 1. unfold get. cbn [rest].
+  destruct (dblink_loop_reads depth ps (dict_set [] (fst kv) (snd kv)) o2 e2 (ap + depth + zlen (pair_line kv) + 1) (fr :: k)
+              (S (length (more_text depth ps ++ post))) post Hps) as (o3 & e3 & H3).
+  - pose proof (more_text_len depth ps). rewrite app_length. unfold byte in *. lia.
+  - exact Hp.
+  - rewrite (bind_ok _ _ _ _ _ H3). eexists. split.
+    + unfold ret. cbn [fst snd].
+      change (set_all (dict_set [] (fst kv) (snd kv)) ps) with (set_all [] (kv :: ps)).
+      rewrite (set_all_distinct (kv :: ps) [] Hnd). reflexivity.
+    + split; reflexivity.
+Qed.
+
+(* the KEYWORDS sub-parser as a whole (sub_of wraps the error) *)
+Theorem p_keywords_roundtrip depth a ks n post o e ap fr k :
+  zlen n_KEYWORDS <= depth -> Forall nosep ks -> join_semi ks <> [] ->
+  Forall (fun c => c <> 10) (join_semi ks ++ [46]) -> no_cr (join_semi ks ++ [46]) ->
+  is_prefix (repeat_byte 32 depth) post = false ->
+  exists s', p_keywords depth a
+               (mkst (n_KEYWORDS ++ repeat_byte 32 (depth - zlen n_KEYWORDS) ++
+                      (add_prefix (wrap_space (join_semi ks ++ [46]) n) (repeat_byte 32 depth) ++ [10]) ++ post) o e ap (fr :: k)) =
+             (Ok (upd_fields a (set_keywords (a_fields a) ks), None), s') /\ rest s' = post /\ stk s' = fr :: k.
+Proof.
+  intros Hd Hks Hne Hnl Hcr Hp. unfold p_keywords, sub_of.
+  destruct (field_name_reads n_KEYWORDS depth
+              ((add_prefix (wrap_space (join_semi ks ++ [46]) n) (repeat_byte 32 depth) ++ [10]) ++ post) o e ap fr k Hd)
+    as (o1 & e1 & H1).
+  destruct (keywords_body_roundtrip wrap_unwrap depth (join_semi ks ++ [46]) n post o1 e1 (ap + depth) (fr :: k) Hnl Hcr Hp)
+    as (flag & s' & E & R & S).
+  assert (Inner : (_ <-- field_name_parser (fixed_name n_KEYWORDS) depth ;;;
+                   b <-- field_body_parser depth 32 ;;;
+                   ret (upd_fields a (set_keywords (a_fields a) (flatfile_split b))))
+                  (mkst (n_KEYWORDS ++ repeat_byte 32 (depth - zlen n_KEYWORDS) ++
+                         (add_prefix (wrap_space (join_semi ks ++ [46]) n) (repeat_byte 32 depth) ++ [10]) ++ post) o e ap (fr :: k))
+                  = (Ok (upd_fields a (set_keywords (a_fields a) ks)), s')).
+  { rewrite (bind_ok _ _ _ (n_KEYWORDS, 0) _ H1). unfold field_body_parser.
+    rewrite (bind_ok _ _ _ (join_semi ks ++ [46]) s') by (rewrite (bind_ok _ _ _ _ _ E); reflexivity).
+    unfold ret. rewrite (flatfile_split_join ks Hks Hne). reflexivity. }
+  rewrite (bind_ok _ _ _ (Some (upd_fields a (set_keywords (a_fields a) ks)), EOther) _ (try_ok _ _ _ _ Inner)).
+  exists s'. split; [reflexivity|split; assumption].
+Qed.
